@@ -14,7 +14,7 @@ gen:
 
 proofs: gen
 	python3 -c "import sys; sys.path.insert(0,'lib'); import vlib; vlib.coq_makefile()"
-	cd coq && timeout 7200 $(MAKE) -f Makefile.coq -k -j$(J) COQC='timeout 1500 coqc' || echo "WARNING: part of the Coq development did not build; the checks that depend on it will report it"
+	cd coq && timeout 7200 $(MAKE) -f Makefile.coq -k -j$(J) COQC=$(CURDIR)/tools/coqc_limited.sh || echo "WARNING: part of the Coq development did not build; the checks that depend on it will report it"
 
 models:
 	python3 -c "import sys,glob,os; sys.path.insert(0,'lib'); import vlib; [print(a, vlib.build_model(a)) for a in sorted(os.path.basename(p)[8:-2] for p in glob.glob('coq/Extract/Extract_*.v'))]"
